@@ -87,8 +87,9 @@ class Scope:
 
 
 class Use:
-    def __init__(self, mod, only=None):
+    def __init__(self, mod, only=None, renames=None):
         self.mod, self.only = mod, only  # only: [(local, remote)] or None
+        self.renames = renames or []     # whole-module USE with renames: `use m, local => remote` (remote is then hidden under its own name)
 
 
 def is_public(mod, e):
@@ -117,7 +118,11 @@ def exports(mod, seen=()):
 def imported(u, seen=()):
     ex = exports(u.mod, seen)
     if u.only is None:
-        return dict(ex)
+        out = dict(ex)
+        for loc, rem in u.renames:
+            if rem in out:
+                out[loc] = out.pop(rem)
+        return out
     return {loc: ex[rem] for loc, rem in u.only if rem in ex}
 
 
@@ -146,6 +151,12 @@ class W:
     pass
 
 
+# identifiers that start like statement keywords
+KWPOOL = ["blocks", "typeset", "dot", "selector", "wherever", "endpoint", "doi", "interfaces", "modulex", "contained", "implicitx", "used", "includes", "enumx",
+          "functional", "associated", "criticalx", "forallx", "elsewherex", "iffy", "programx", "subroutinex", "endif1", "enddo1", "procedures", "importer", "publicx", "privatex", "generic1",
+          "finalx", "casex", "elsex", "callx", "printx", "integerx", "realx", "logicalx", "characterx", "classx", "externalx", "parameterx", "resultx", "submodx", "ntrue", "nfalse"]
+
+
 class Gen:
     def __init__(self, rng, nmod=None, tight=False, dollar=False, types=True, includes=True, constructs=True, generics=True, split_files=True,
                  style=None, nested_uses=True):
@@ -157,6 +168,7 @@ class Gen:
         self.uid = 0
         self.nested_uses = nested_uses
         self.split_files = split_files
+        self.rng2 = random.Random(rng.random())  # private stream for the statement kinds added later
         # chain mode: every module declares a public type extending the newest type of the previous module (EXTENDS chains of 3+ levels
         # across files); decided from a private stream so that the other draws stay as they were
         self.chain = types and random.Random(rng.random()).random() < 0.25
@@ -173,8 +185,17 @@ class Gen:
             return
         r = rng.random()
         if r < 0.4 and not (set(ex) & taken):
-            scope.uses.append(Use(mod, None))
+            ren = []
+            if allow_rename and self.rng2.random() < 0.25:
+                cand = [n for n in sorted(ex) if ex[n].kind in ("var", "sub", "fun", "type") and ex[n].module() is mod and ex[n].name == n]
+                if cand:
+                    rem = self.rng2.choice(cand)
+                    loc = self.rng2.choice(POOL) + "_w"
+                    if loc not in taken and loc not in ex:
+                        ren.append((loc, rem))
+            scope.uses.append(Use(mod, None, ren))
             taken.update(ex)
+            taken.update(l for l, _ in ren)
             return
         only = []
         for rem in rng.sample(sorted(ex), k=min(len(ex), rng.randint(1, 3))):
@@ -372,6 +393,16 @@ class Gen:
         rng = self.rng
         s.stmts = [self.gen_stmt(s, 0) for _ in range(rng.randint(1, 5))]
         s.stmts = [x for x in s.stmts if x]
+        if getattr(s, "impl_of", None) is not None and self.o["constructs"] and s.args and self.rng2.random() < 0.5:
+            # SELECT TYPE on the passed-object dummy: TYPE IS / CLASS IS / CLASS DEFAULT guards
+            # inside the guard blocks the selector is a construct entity of its own (typed by the guard): the blocks do not refer to it
+            sv_ = s.args[0]
+            at_ = s.ents.index(sv_)
+            s.ents.remove(sv_)
+            body = [x for x in (self.gen_stmt(s, 2) for _ in range(2)) if x]
+            body2 = [x for x in (self.gen_stmt(s, 2) for _ in range(2)) if x]
+            s.ents.insert(at_, sv_)
+            s.stmts.insert(self.rng2.randint(0, len(s.stmts)), ("seltype", s.args[0], s.impl_of, body, body2, self.rng2.randrange(4)))
 
     def int_vars(self, s, extra=None):
         vis = visible(s)
@@ -393,6 +424,16 @@ class Gen:
             if not ints:
                 return None
             a, b, c = (rng.choice(ints) for _ in range(3))
+            if self.o["constructs"] and not self.o["dollar"]:
+                r2 = self.rng2.random()
+                if r2 < 0.08:
+                    # an array whose name starts like a keyword, assigned element-wise: `blocks12(1) = a + b` is not a BLOCK construct
+                    ka = Ent(self.fresh(self.rng2.choice(KWPOOL)), "var", s, loopvar=True, dims="(3)")
+                    s.ents.append(ka)
+                    return ("kwassign", ka, [b, c])
+                if r2 < 0.16:
+                    # character literals (with ! and quotes inside) before real occurrences, and a trailing comment after them
+                    return ("printlit", [a, b], self.rng2.randrange(4))
             return ("assign", [a, b, c])
         if r < 0.5:
             procs = [(n, e) for n, e in vis.items() if e.kind == "sub" and getattr(e, "node", None) is not None and e.node not in anc
@@ -642,6 +683,28 @@ class Renderer:
             if kind == "assign":
                 a, b, c = x[1]
                 self.L([pad, self.ref(a), eq, self.ref(b), pl, self.ref(c)], "stmt", s)
+            elif kind == "seltype":
+                sv, t, body, body2, form = x[1:]
+                i2 = ind + self.st.indent
+                self.L([pad, k("select") + " " + k("type") + " (", self.ref((sv.name, sv)), ")"], "open", s)
+                if form in (0, 2, 3):
+                    self.L([pad, k("type") + " " + k("is") + " (", (t.name, t, "type-spec"), ")"], "mid", s)
+                    self.stmts(s, body, i2)
+                if form in (1, 3):
+                    self.L([pad, k("class") + " " + k("is") + " (", (t.name, t, "type-spec"), ")"], "mid", s)
+                    self.stmts(s, body if form == 1 else [], i2)
+                if form in (0, 1, 3):
+                    self.L([pad, k("class") + " " + k("default")], "mid", s)
+                    self.stmts(s, body2, i2)
+                self.L([pad, self.st.end("select", allow_bare=False)], "close", s)
+            elif kind == "kwassign":
+                ka, (b, c) = x[1], x[2]
+                self.L([pad, self.ref((ka.name, ka)), "(1)", eq, self.ref(b), pl, self.ref(c)], "stmt", s)
+                self.L([pad, self.ref(b), eq, self.ref((ka.name, ka)), "(2)"], "stmt", s)
+            elif kind == "printlit":
+                (a, b), form = x[1], x[2]
+                lit1 = ["'sum is'", "\"hi!\"", "'it''s ! not a comment'", "\"a 'quoted' ! word\""][form]
+                self.L([pad, k("print") + " *, " + lit1 + ", ", self.ref(a), ", 'and', ", self.ref(b), f"   ! report {a[0]} here"], "stmt", s)
             elif kind == "call":
                 parts = [pad, k("call") + " ", x[1][0]]
                 if len(x[1]) > 1:
@@ -825,6 +888,10 @@ class Renderer:
                         parts += [(l, ex[r], "only-alias"), " => ", (r, ex[r], "only-remote")]
                     else:
                         parts.append((l, ex[r], "only"))
+            else:
+                ex = exports(u.mod)
+                for l, r in u.renames:
+                    parts += [", ", (l, ex[r], "only-alias"), " => ", (r, ex[r], "only-remote")]
             self.L(parts, "use", s)
         self.L([p2, k("implicit") + " " + k("none")], "implicit", s)
         if s.kind == "module" and s.default_private:
